@@ -27,7 +27,7 @@ def unpack_of(defs: Dict[str, List[Def]], name: str) -> Optional[Tuple[ast.AST, 
     return None
 
 
-def guards_of(pm: Dict[ast.AST, ast.AST], node: ast.AST, stop: ast.AST, early: bool = False) -> List[Tuple[ast.AST, bool]]:
+def guards_of(pm: Dict[ast.AST, ast.AST], node: ast.AST, stop: ast.AST, early: bool = True) -> List[Tuple[ast.AST, bool]]:
     """Enclosing ``if``/``while``/conditional-expression tests with the branch
     sense under which ``node`` executes, innermost first, up to ``stop``.
 
@@ -65,8 +65,15 @@ def guards_of(pm: Dict[ast.AST, ast.AST], node: ast.AST, stop: ast.AST, early: b
     for t, s_ in out:
         while isinstance(t, ast.UnaryOp) and isinstance(t.op, ast.Not):
             t, s_ = t.operand, not s_
+        # a failed == / in / is test is a passed != / not in / is not test: one spelling, positive sense
+        if not s_ and isinstance(t, ast.Compare) and len(t.ops) == 1 and type(t.ops[0]) in _NEGATED:
+            t = ast.copy_location(ast.Compare(left=t.left, ops=[_NEGATED[type(t.ops[0])]()], comparators=t.comparators), t)
+            s_ = True
         norm_out.append((t, s_))
     return norm_out
+
+
+_NEGATED = {ast.Eq: ast.NotEq, ast.NotEq: ast.Eq, ast.In: ast.NotIn, ast.NotIn: ast.In, ast.Is: ast.IsNot, ast.IsNot: ast.Is}
 
 
 def _in_list(lst: Sequence[ast.AST], node: ast.AST) -> bool:
